@@ -223,6 +223,9 @@ func (hash *SexpHash) HashGet(env *Zlisp, key Sexp) (res Sexp, err error) {
 }
 
 func (hash *SexpHash) HashGetDefault(env *Zlisp, key Sexp, defaultval Sexp) (Sexp, error) {
+	if arr, isArray := key.(*SexpArray); isArray && len(arr.Val) == 1 {
+		key = arr.Val[0] // as in HashSet and HashGet: h[6] names the key 6
+	}
 	hashval, err := HashExpression(env, key)
 	if err != nil {
 		return SexpNull, err
@@ -397,6 +400,9 @@ func (hash *SexpHash) HashSet(key Sexp, val Sexp) error {
 }
 
 func (hash *SexpHash) HashDelete(key Sexp) error {
+	if arr, isArray := key.(*SexpArray); isArray && len(arr.Val) == 1 {
+		key = arr.Val[0] // as in HashSet and HashGet: h[6] names the key 6
+	}
 	hashval, err := HashExpression(nil, key)
 	if err != nil {
 		return err
